@@ -117,3 +117,16 @@ pub fn visit_all(v: &mut [Tok]) -> bool {
 pub fn pure_any(v: &[Tok]) -> bool {
     v.iter().any(|t| t.0.is_empty())
 }
+
+/// Counters that are saturated at their maximum when they are filled in, combined with a plain `+` (overflows when both are at the
+/// maximum) and, as the clean twin, with `max` / `saturating_add`.
+pub struct Counters {
+    pub blanks: u16,
+    pub breaks: u16,
+}
+pub fn gap_plain(c: &Counters) -> u16 {
+    c.blanks + c.breaks
+}
+pub fn gap_saturating(c: &Counters) -> u16 {
+    c.blanks.max(c.breaks).saturating_add(c.breaks).min(1)
+}
